@@ -22,6 +22,15 @@ def prelude(pms, msg):
         pms.common.crc(msg, encode=True)
     except Exception:
         pass
+    # ... and has met damaged input before: the same digits cut short, too long, with a foreign character, in another format.  Whatever a
+    # function stores before it validates must not leak into the answer for the intact string.
+    first = msg[:1]
+    for bad in (msg[:-1], msg + "0", msg[:-1] + "Z", msg[:13], ("0" if first != "0" else "8") + msg[1:], ""):
+        for fn in (pms.common.df, pms.common.crc, pms.common.icao, pms.common.typecode, pms.common.altcode, pms.common.idcode, pms.common.hex2bin):
+            try:
+                fn(bad)
+            except Exception:
+                pass
     crosstalk(pms, msg)
 
 
